@@ -8,6 +8,7 @@
 #include <asam_cmp/capture_module_payload.h>
 #include <asam_cmp/lin_payload.h>
 #include <asam_cmp/tecmp_capture_module_payload.h>
+#include <asam_cmp/tecmp_decoder.h>
 #include <new>
 #include <string>
 #include "verif.h"
@@ -337,5 +338,55 @@ VP_HARNESS(h_tecmp_cm_twice)
     const CaptureModulePayload& cm = static_cast<const CaptureModulePayload&>((*ps[1])[0]->getPayload());
     vp_assert(svIs(cm.getHardwareVersion(), "v5.0", 4), "C15: the second message's hardware version is converted from its own bytes (no state carried between calls)");
     vp_assert(svIs(cm.getSoftwareVersion(), "v2.3.10", 7), "C15: the second message's software version is converted from its own bytes (no state carried between calls)");
+}
+#endif
+
+// Leaf check of the TECMP header gate with the declared payload length (and every other header byte) symbolic: a header is
+// accepted exactly when the declared length is non-zero and header + declared length fit the buffer. HSZ >= 0: the buffer
+// is an exact HSZ-byte allocation. HSZ = -1: the size argument itself is symbolic over all size_t values >= 28 (the gate
+// dereferences only the 28 header bytes, which the run checks).
+#ifdef HSZ
+namespace TECMP
+{
+struct VerifAccess
+{
+    static CmpHeader GetHeader(const void* d, size_t n, uint8_t** p) { return TECMP::Decoder::GetHeader(d, n, p); }
+};
+}
+VP_HARNESS(h_tecmp_header)
+{
+#if HSZ >= 0
+    const size_t sz = HSZ;
+    const size_t alloc = HSZ;
+#else
+    const size_t sz = vp_u64();
+    vp_assume(sz >= 28);
+    const size_t alloc = 28;
+#endif
+    static uint8_t hb[HSZ > 28 ? HSZ : 28];
+    vp_bytes(hb, alloc);
+    uint8_t* buf = static_cast<uint8_t*>(operator new(alloc ? alloc : 1));
+    for (size_t i = 0; i < alloc; ++i)
+        buf[i] = hb[i];
+    uint8_t* pp = reinterpret_cast<uint8_t*>(8);
+    TECMP::CmpHeader h = TECMP::VerifAccess::GetHeader(buf, sz, &pp);
+    const bool accepted = h.isValid() && pp != nullptr;
+    if (sz < 28)
+    {
+        vp_assert(!accepted, "C15: a buffer shorter than the TECMP header is not accepted");
+        return;
+    }
+    const uint64_t declared = vp_be16(hb + 24);
+    const bool fits = declared != 0 && declared <= sz - 28;
+    const bool sentinel = vp_be16(hb + 6) == 0xFF00 || hb[5] == 0xFF;  // no such data type: the library's own "invalid header" marker
+    if (!fits)
+        vp_assert(!accepted, "C15: a declared payload length of zero or beyond the buffer is not accepted");
+    else if (!sentinel)
+    {
+        vp_assert(accepted, "C15: a header whose declared payload fits the buffer is accepted");
+        vp_assert(pp == buf + 28, "C15: the payload starts right after the 28-byte header");
+        vp_assert(h.getPayloadLength() == declared && h.getDeviceId() == hb[1] && h.getTimestamp() == vp_be64(hb + 16) && h.getInterfaceId() == vp_be32(hb + 12),
+                  "C15: accepted header carries the wire fields");
+    }
 }
 #endif
